@@ -107,6 +107,17 @@ pub fn icmp_echo(src: &Addr, dst: &Addr, reply: bool, ident: u16, seq: u16, data
     m
 }
 
+/// ICMPv4 (type 3 code 3) / ICMPv6 (type 1 code 4) "port unreachable" error quoting the
+/// IP packet `original` (header + leading payload bytes), with a correct checksum.
+pub fn icmp_port_unreachable(src: &Addr, dst: &Addr, original: &[u8]) -> Vec<u8> {
+    let v6 = matches!(src, Addr::V6(_));
+    let mut m = if v6 { vec![1, 4, 0, 0, 0, 0, 0, 0] } else { vec![3, 3, 0, 0, 0, 0, 0, 0] };
+    m.extend_from_slice(original);
+    let c = if v6 { cksum(&[&pseudo(src, dst, PROTO_ICMPV6, m.len()), &m]) } else { cksum(&[&m]) };
+    m[2..4].copy_from_slice(&c.to_be_bytes());
+    m
+}
+
 pub fn arp(oper: u16, sha: &[u8; 6], spa: &[u8; 4], tha: &[u8; 6], tpa: &[u8; 4]) -> Vec<u8> {
     let mut a = vec![0, 1, 0x08, 0x00, 6, 4];
     a.extend_from_slice(&oper.to_be_bytes());
